@@ -407,6 +407,10 @@ class Interp:
             return ("lref", ap[0], ap[1], tuple(_freeze(x) for x in ap[2]))
         if k == "cast":
             v = self.operand(st, fid, rv["op"])
+            ck = rv.get("ck", "")
+            if ck.startswith(("IntToInt", "FloatToInt", "IntToFloat", "FloatToFloat")) and v[0] != "i" and rv.get("from") != rv.get("to"):
+                # keep value-changing conversions of symbolic numbers visible
+                return ("un", "as %s" % rv.get("to"), v)
             return v
         if k == "binop":
             a = self.operand(st, fid, rv["a"])
@@ -728,6 +732,11 @@ class Interp:
         for a in args:
             tv = _target(self, st, a) if a[0] in ("lref", "ptr") else a
             shown.append(tv if tv[0] in ("u", "i", "s", "call", "pj", "bin", "un", "adt", "tup", "seq", "label") else a)
+        # an opaque callee that takes `&mut x` may change x: afterwards x is "the callee applied to the old x and the other arguments"
+        atys = t.get("atys") or []
+        for i, a in enumerate(args):
+            if i < len(atys) and atys[i].startswith("&mut ") and a[0] == "lref" and not atys[i].startswith("&mut dyn "):
+                self.write_place(st, a[1], {"l": a[2], "p": [_thaw(x) for x in a[3]]}, ("call", _short(path) + "!", tuple(shown), atys[i][5:]))
         return [(st, ("call", _short(path), tuple(shown), t.get("dty", "")))]
 
 
